@@ -51,6 +51,9 @@ CHECKS = {
  "C19": ("bounded symbolic execution of Query.select/_patch_obj/_fix_sparse_arrays on symbolic documents vs the projection definitions",
          "For 40 (match query, relative queries) cases under the three styles on spines with symbolic leaves (0/false/null included), lengths and integer-looking names: flat = selected values in order; relative/root = rank-compacted located values with no other leaves; nothing for non-container matches or empty selections; document unchanged.",
          "disjoint, per-array ascending selections; selected nodes located by the library's own finditer (decided under C01/C03)"),
+ "C03": ("bounded symbolic execution of match construction, canonical_string, pointer derivation and re-compilation of the reported path for every match on a symbolic document",
+         "For every match of a catalogue query: the path matches the RFC 9535 2.7 normalized-path grammar, evaluating it returns exactly that node (identity), parts / pointer / pointer text resolve to it, the parent is one step shorter, paths equal iff nodes equal; member-name text (quotes, backslash, controls, '/', '~', non-BMP) by enumeration over a 35-name pool.",
+         "member names concrete; name text is enumeration (json.dumps and the lexer are C boundaries)"),
 }
 NA = {
  "C18": "process-level I/O (argparse FileType, stdin/stdout, exit status, stderr text): CrossHair's audit wall blocks file access, file contents pass through C json, and what remains is a finite option table whose exploration would be enumeration of concrete runs - no role for a solver",
